@@ -800,6 +800,7 @@ func init() {
 			{Name: "seq", Shards: func(t string) int { return 16 }, Run: runSeq, Replay: replaySeq},
 			{Name: "concurrent", Shards: func(t string) int { return 8 }, Run: runCon, Replay: replayCon},
 			{Name: "race", Run: runRace, Race: true},
+			{Name: "real-informers", Run: runRealInformers, Parallel: true},
 		},
 	})
 }
